@@ -49,6 +49,12 @@ OPAQUE = {
             "unique": ("Bool", "{0}.unique"),
         },
     },
+    "Incoming": {
+        # a DNSIncoming as far as `DNSRecord.suppressed_by` looks at it: the list `msg.answers()` returns
+        "lean": "(List Rec)",
+        "attrs": {},
+        "methods": {"answers": ([], "List[Rec]", "{0}")},
+    },
     "Svc": {
         # a registered ServiceInfo: the model's `Svc` has a non-optional server (`_add` asserts it, DESIGN §7 C03)
         "lean": "Svc",
